@@ -37,7 +37,7 @@ REQUIRED_PROBES = {"quick": ["raw_len_rejected", "der_rejected",
 
 def budget(tier):
     if tier == "quick":
-        return dict(runs=250000, wall=60, chunk=2000)
+        return dict(runs=400000, wall=60, chunk=2000)
     return dict(runs=9000000, wall=700, chunk=4000)
 
 
